@@ -20,7 +20,7 @@ EXTENDS PlaneOps, TLC, Json
 
 CONSTANTS Setups,     \* set of [id, box: <<box,...>>, qs: <<query,...>>, pb: bounds, g: gridsize, u: unit denominator]
           MaxOps,     \* histories of up to MaxOps insertions/removals
-          DupAdds,    \* TRUE: an object that is already in the index may be added again
+          MaxDup,     \* how many times per history an object that is already in the index may be added again
           Dev         \* deviations of the code modelled as coded
 
 VARIABLES su, hist, ideal, impl, res
@@ -34,8 +34,10 @@ Init == /\ su \in Setups
         /\ ideal = S0 /\ impl = S0
         /\ res = <<>>
 
+DupCount(h) == Cardinality({i \in 1..Len(h) : h[i][1] = "add" /\ h[i][2] \in RefLive(SubSeq(h, 1, i - 1))})
+
 AddObj(o) == /\ res = <<>> /\ Len(hist) < MaxOps
-             /\ DupAdds \/ o \notin RefLive(hist)
+             /\ o \notin RefLive(hist) \/ DupCount(hist) < MaxDup
              /\ hist' = Append(hist, <<"add", o>>)
              /\ ideal' = Add(ideal, o, Cells(su.box[o], {}), {})
              /\ impl' = Add(impl, o, Cells(su.box[o], Dev), Dev)
